@@ -376,3 +376,8 @@ V('C02-neighbour-vertices-skip', 'C02', PT, "                ax1 = line_xs[m + 1
 V('C02-reintroduce-D3', ['C02', 'C17'], PT, "        return result & ~missing\n", "        return result\n", rule=None, rules={'C02': 'C02.d', 'C17': 'C17.a'})
 V('C02-default-inds-dropped', 'C02', PT, "    def _intersects_polygon(self, polygon, inds):\n        if inds is None:\n            inds = np.arange(len(self))\n", "    def _intersects_polygon(self, polygon, inds):\n", rule='C02.b')
 V('C02-silent-other-half-open', 'C02', IX, "            if y0 >= y or y1 < y or (x0 < x and x1 < x):", "            if y0 > y or y1 <= y or (x0 < x and x1 < x):", expect='silent')
+
+# ------------------------------------------------------------------------------------------------ C17
+V('C17-line-length-reads-before-loop', 'C17', ME, "            x0 = x1\n            y0 = y1\n\n    return total_len", "            x0 = x1\n            y0 = y1\n        total_len += 0.0 * x0\n\n    return total_len", rule='C17.b')
+V('C17-reintroduce-D18', ['C17'], SJ, "        if np.isnan(shape_bounds).any():\n            continue\n", "", rule='C17.d')
+V('C17-dask-total-bounds-numpy', ['C17'], D, "            np.nanmin(partition_bounds['x0']),", "            np.min(partition_bounds['x0'].values),", rule='C17.f')
